@@ -113,6 +113,8 @@ class Evaluator:
         self._modconst_cache = {}
         self._stack = []
         self.reads = []
+        self.steps = 0
+        self.step_budget = 400000
         self.heap = {}         # stream id -> (data term, position term)
 
     # ------------------------------------------------------------------ public API
@@ -661,6 +663,10 @@ class Evaluator:
 
     # ------------------------------------------------------------------ expressions
     def expr(self, e, fr):
+        self.steps += 1
+        if self.steps > self.step_budget:
+            raise AnalysisError('ENGINE', 'evaluation budget exceeded (%d expression steps) in %s'
+                                % (self.step_budget, fr.fn.qual if fr.fn else '<module>'))
         m = getattr(self, 'ex_' + type(e).__name__, None)
         if m is None:
             return T.opaque('unsupported expression %s' % type(e).__name__)
@@ -992,6 +998,7 @@ class Evaluator:
         it = self.expr(g.iter, fr)
         items = _fixed_items(it)
         saved = dict(fr.env)
+        entered = False
         try:
             if items is not None and len(items) <= UNROLL_BOUND:
                 out = []
@@ -1009,6 +1016,11 @@ class Evaluator:
                     else:
                         out.append(self.expr(e.elt, fr))
                 return T.dct(out) if kind == 'dict' else T.lst(out)
+            # comprehension over a comprehension: compose the bodies
+            if T.is_op(it, 'MAP') and it[5] == T.TRUE and it[6] == T.const('list') and not g.ifs and kind == 'list':
+                self.assign(g.target, it[3], fr)
+                body = self.expr(e.elt, fr)
+                return T.raw_op('MAP', it[2], body, it[4], T.TRUE, T.const('list'))
             # symbolic iterable: MAP(var, body, iter, filter)
             depth_ = getattr(self, '_comp_depth', 0)
             if _is_items(it):
@@ -1016,6 +1028,7 @@ class Evaluator:
             else:
                 var = T.sym('each%d' % depth_, **_elem_meta(it))
             self._comp_depth = depth_ + 1
+            entered = True
             self.assign(g.target, var, fr)
             keep = T.TRUE
             for cnd in g.ifs:
@@ -1026,8 +1039,8 @@ class Evaluator:
                 body = self.expr(e.elt, fr)
             return T.raw_op('MAP', var, body, it, keep, T.const(kind))
         finally:
-            self._comp_depth = getattr(self, '_comp_depth', 1) - 1 if items is None or len(items) > UNROLL_BOUND else \
-                getattr(self, '_comp_depth', 0)
+            if entered:
+                self._comp_depth -= 1
             # comprehension variables do not leak
             for k in list(fr.env):
                 if k not in saved:
@@ -1325,28 +1338,38 @@ def bounds_of(t, facts, _depth=0):
     return lo, hi
 
 
-def _has_fall(t):
-    if t is FALL:
-        return True
-    if T.tag(t) == 'phi':
-        return _has_fall(t[2]) or _has_fall(t[3])
+def _walk_phi_any(t, pred):
+    """Does any leaf of the Phi DAG satisfy pred?  (memoised by node identity: DAGs are shared heavily)"""
+    seen = set()
+    stack = [t]
+    while stack:
+        x = stack.pop()
+        if x is not FALL and T.tag(x) == 'phi':
+            i = id(x)
+            if i in seen:
+                continue
+            seen.add(i)
+            stack.append(x[2])
+            stack.append(x[3])
+        elif T.tag(x) == 'leaf':
+            if pred(x[1]):
+                return True
+        elif pred(x):
+            return True
     return False
+
+
+def _has_fall(t):
+    return _walk_phi_any(t, lambda x: x is FALL or x == FALL)
 
 
 def _has_raise(t):
-    if T.tag(t) == 'raise':
-        return True
-    if T.tag(t) == 'phi':
-        return _has_raise(t[2]) or _has_raise(t[3])
-    return False
+    return _walk_phi_any(t, lambda x: T.tag(x) == 'raise')
 
 
 def _has_specific_raise(t, exc):
-    if t == T.raise_(exc):
-        return True
-    if T.tag(t) == 'phi':
-        return _has_specific_raise(t[2], exc) or _has_specific_raise(t[3], exc)
-    return False
+    r = T.raise_(exc)
+    return _walk_phi_any(t, lambda x: x == r)
 
 
 _IMPLICIT_EXC = {'ValueError', 'TypeError', 'KeyError', 'IndexError', 'AssertionError', 'OverflowError',
@@ -1379,9 +1402,7 @@ def _term_may_raise(t, names):
 def _all_raise(t):
     if t is FALL:
         return False
-    if T.tag(t) == 'phi':
-        return _all_raise(t[2]) and _all_raise(t[3])
-    return T.tag(t) == 'raise'
+    return not _walk_phi_any(t, lambda x: T.tag(x) != 'raise')
 
 
 def _may_raise_implicitly(body):
@@ -1392,9 +1413,15 @@ def _may_raise_implicitly(body):
     return False
 
 
-def _map_leaves(t, f):
+def _map_leaves(t, f, _memo=None):
+    memo = {} if _memo is None else _memo
     if T.tag(t) == 'phi' and t is not FALL:
-        return T.phi(t[1], _map_leaves(t[2], f), _map_leaves(t[3], f))
+        i = id(t)
+        if i in memo:
+            return memo[i][1]
+        r = T.phi(t[1], _map_leaves(t[2], f, memo), _map_leaves(t[3], f, memo))
+        memo[i] = (t, r)
+        return r
     if T.tag(t) == 'leaf':
         return f(t[1])
     return f(t)
@@ -1408,24 +1435,38 @@ def _strip_fall(t, default):
     return _replace_fall(t, default)
 
 
-def _raise_split(v):
+def _raise_split(v, _memo=None):
     """Keep only the Phi structure that separates RAISE leaves from values (sub-trees without RAISE
     stay whole, so _map_leaves sees them as single leaves)."""
-    if T.tag(v) == 'phi' and _has_raise(v):
-        return ('phi', v[1], _raise_split(v[2]), _raise_split(v[3]))
+    memo = {} if _memo is None else _memo
     if T.tag(v) == 'phi':
-        return ('leaf', v)
+        i = id(v)
+        if i in memo:
+            return memo[i][1]
+        if _has_raise(v):
+            r = ('phi', v[1], _raise_split(v[2], memo), _raise_split(v[3], memo))
+        else:
+            r = ('leaf', v)
+        memo[i] = (v, r)
+        return r
     return v
 
 
-def _strip_raise(v):
+def _strip_raise(v, _memo=None):
     """Value of an expression on the paths where it did not raise."""
+    memo = {} if _memo is None else _memo
     if T.tag(v) == 'phi':
+        i = id(v)
+        if i in memo:
+            return memo[i][1]
         if T.tag(v[2]) == 'raise':
-            return _strip_raise(v[3])
-        if T.tag(v[3]) == 'raise':
-            return _strip_raise(v[2])
-        return T.phi(v[1], _strip_raise(v[2]), _strip_raise(v[3]))
+            r = _strip_raise(v[3], memo)
+        elif T.tag(v[3]) == 'raise':
+            r = _strip_raise(v[2], memo)
+        else:
+            r = T.phi(v[1], _strip_raise(v[2], memo), _strip_raise(v[3], memo))
+        memo[i] = (v, r)
+        return r
     return v
 
 
